@@ -43,9 +43,11 @@ def S(member):
     return EnumVal("gwf.backends.base.BackendStatus", member)
 
 
-def eval_submit(ctx):
+def eval_submit(ctx, id_a=None, id_b=None):
     """TrackingBackend.submit on symbolic ids: (ids handed to ops, tracked table after, state table after) or an error string."""
-    tb, obj = tracking_backend(ctx, {"A": tok("ID_A"), "B": tok("ID_B"), "T": tok("OLD")}, {tok("OLD"): S("FAILED")})
+    id_a = tok("ID_A") if id_a is None else id_a
+    id_b = tok("ID_B") if id_b is None else id_b
+    tb, obj = tracking_backend(ctx, {"A": id_a, "B": id_b, "T": tok("OLD")}, {tok("OLD"): S("FAILED")})
     captured = {}
 
     def h_submit_target(recv, target, ids):
@@ -338,7 +340,7 @@ def graph_witnesses(ctx):
     return out
 
 
-def eval_slurm_states(ctx, n_ids, accounting):
+def eval_slurm_states(ctx, n_ids, accounting, fail=None):
     """SlurmOps.get_job_states with the scheduler commands replaced by recording hooks that answer like squeue/sacct."""
     ci = ctx.index.cls("gwf.backends.slurm:SlurmOps")
     m = ctx.index.method(ci, "get_job_states")
@@ -350,8 +352,13 @@ def eval_slurm_states(ctx, n_ids, accounting):
         args = [str(a) for a in args]
         if exe == "squeue":
             squeue_calls.append(args)
+            if fail == "squeue":
+                raise Raised("BackendError", "squeue failed")
             return "1;R\n999999;R\n"
         if exe == "sacct":
+            if fail == "sacct":
+                sacct_queries.append(["<failed>"])
+                raise Raised("BackendError", "sacct failed")
             req = []
             if "--jobs" in args:
                 req = args[args.index("--jobs") + 1].split(",")
@@ -729,3 +736,96 @@ def anchored_norm(value, wd, rel):
     want = wd + "/" + rel
     same = posixpath.normpath(plain.replace(wd, "/WD")) == posixpath.normpath(want.replace(wd, "/WD"))
     return has_abs and same
+
+
+# --------------------------------------------------------------------------- should_run on a finite witness table
+def eval_should_run(ctx, inputs, outputs, spec_changed=False):
+    """should_run(target, fs, spec_hashes) with files given as {path: mtime or None (missing)}; returns bool or an error string."""
+    sr = ctx.index.func("gwf.scheduling:should_run")
+    files = dict(inputs)
+    files.update(outputs)
+
+    def h_exists(recv, path):
+        return files.get(path) is not None
+
+    def h_changed_at(recv, path):
+        if files.get(path) is None:
+            raise Raised("FileNotFoundError", path)
+        return files[path]
+
+    target = Obj("target", name="T", inputs=list(inputs), outputs=list(outputs))
+    hooks = {"attr:exists": h_exists, "attr:changed_at": h_changed_at,
+             "attr:flattened_inputs": lambda recv: list(inputs), "attr:flattened_outputs": lambda recv: list(outputs),
+             "attr:has_changed": lambda recv, t: ("H" if spec_changed else None)}
+    interp = PureInterp(ctx, hooks=hooks)
+    try:
+        return interp.call(sr, (target, Obj("fs"), Obj("spec_hashes")))
+    except (Raised, Unsupported) as exc:
+        return f"<{type(exc).__name__}: {exc}>"
+
+
+def should_run_witnesses():
+    """(label, inputs, outputs, spec_changed, expected) rows; expected follows the property text, not the code."""
+    rows = []
+
+    def add(label, ins, outs, spec=False):
+        present = [v for v in outs.values() if v is not None]
+        if spec or not outs or len(present) != len(outs):
+            want = True
+        else:
+            want = max(ins.values(), default=float("-inf")) > min(outs.values())
+        rows.append((label, ins, outs, spec, want))
+
+    add("no outputs", {"/p/in": 5}, {})
+    add("no outputs, no inputs", {}, {})
+    add("output missing", {"/p/in": 1}, {"/p/out": None})
+    add("second output missing", {"/p/in": 1}, {"/p/o1": 9, "/p/o2": None})
+    add("first output missing", {"/p/in": 1}, {"/p/o1": None, "/p/o2": 9})
+    add("up to date", {"/p/in": 1}, {"/p/out": 2})
+    add("input newer", {"/p/in": 3}, {"/p/out": 2})
+    add("tie, input path sorts after output path", {"/p/z_in": 2}, {"/p/a_out": 2})
+    add("tie, input path sorts before output path", {"/p/a_in": 2}, {"/p/z_out": 2})
+    add("no inputs", {}, {"/p/out": 2})
+    add("spec changed, files up to date", {"/p/in": 1}, {"/p/out": 2}, spec=True)
+    add("spec changed, no outputs", {}, {}, spec=True)
+    for order in ((1, 5, 9), (9, 5, 1), (5, 9, 1), (5, 1, 9)):
+        add(f"three outputs {order}, input at 3 (older than some, newer than the oldest)", {"/p/in": 3}, {f"/p/o{i}": t for i, t in enumerate(order)})
+        add(f"three inputs {order}, output at 7 (newer than some, older than the newest)", {f"/p/i{i}": t for i, t in enumerate(order)}, {"/p/out": 7})
+        add(f"three inputs {order}, output at 9 (tie with the newest)", {f"/p/i{i}": t for i, t in enumerate(order)}, {"/p/out": 9})
+        add(f"three outputs {order}, input at 1 (tie with the oldest)", {"/p/in": 1}, {f"/p/o{i}": t for i, t in enumerate(order)})
+    return rows
+
+
+def should_run_witness(ctx):
+    diffs, n = [], 0
+    for label, ins, outs, spec, want in should_run_witnesses():
+        got = eval_should_run(ctx, ins, outs, spec)
+        if isinstance(got, str) and got.startswith("<Unsupported"):
+            return n, diffs, got
+        n += 1
+        if got is not want:
+            diffs.append(f"should_run on [{label}] inputs={ins} outputs={outs}{' spec changed' if spec else ''} gives {got}, the property prescribes {want}")
+    return n, diffs, None
+
+
+
+def eval_query_failure(ctx, mod, cname):
+    """<Ops>.get_job_states with every scheduler command failing (BackendError from call()): must propagate, never yield a partial/empty state map."""
+    ci = ctx.index.cls(f"{mod}:{cname}")
+    m = ctx.index.method(ci, "get_job_states")
+    seen = []
+
+    def failing(exe, *a, **k):
+        seen.append(exe)
+        raise Raised("BackendError", f"{exe} failed")
+
+    interp = PureInterp(ctx, hooks={"gwf.backends.utils.call": failing})
+    interp.max_depth = 10
+    obj = Obj("ops", working_dir=PROJ, log_mode="full", accounting_enabled=True, target_defaults={}, **{"__class__": ci})
+    try:
+        res = interp.call(m, (["1", "2"],), {}, self_obj=obj)
+        return ("returned", res, seen), m
+    except Raised as exc:
+        return ("raised", exc.kind, seen), m
+    except Unsupported as exc:
+        return ("unsupported", str(exc), seen), m
